@@ -115,18 +115,18 @@ def run_fn(case):
     span = abs(ref[-1] - ref[0]) + 1.0
     tol = 1e-9 * span
     for j in range(len(grid)):
-        if abs((W[j] - W[0]) - (ref[j] - ref[0])) > tol:
+        if not abs((W[j] - W[0]) - (ref[j] - ref[0])) <= tol:
             viol.append((
                 'difference-is-not-the-integral',
                 'Sy=%s grid=%r: W[%d]-W[0] = %r, integral of Sy from %r to '
                 '%r = %r' % (case['sy'], grid[:3], j, W[j] - W[0], grid[0],
                              grid[j], ref[j] - ref[0])))
             break
-    if abs(sum(W) / len(W) - case['mean']) > tol + 1e-12 * abs(case['mean']):
+    if not abs(sum(W) / len(W) - case['mean']) <= tol + 1e-12 * abs(case['mean']):
         viol.append(('mean-not-as-requested',
                      'mean %r requested %r' % (sum(W) / len(W),
                                                case['mean'])))
-    vals = [float(sy(x)) for x in grid]
+    vals = [float(sy(x)) for x in refine(grid, 8)]
     if min(vals) >= 0 and any(b < a - tol for a, b in zip(W, W[1:])):
         viol.append(('decreasing', 'curve decreases although Sy >= 0'))
     if case['refine'] > 1:
@@ -134,7 +134,7 @@ def run_fn(case):
             sy, np.array(base), mean_storage_mm=case['mean'])]
         r = case['refine']
         for j in range(len(base)):
-            if abs((W[j * r] - W[0]) - (Wb[j] - Wb[0])) > tol:
+            if not abs((W[j * r] - W[0]) - (Wb[j] - Wb[0])) <= tol:
                 viol.append((
                     'changes-under-refinement',
                     'level %r: %r on the refined grid, %r on the coarse '
@@ -183,7 +183,7 @@ def run_cli(case):
     if case['observations']:
         if not isinstance(doc, list) or len(doc) != len(levels):
             viol.append(('vector-shape', 'got %r' % (doc,)))
-        elif any(abs(a - b) > tol for a, b in zip(doc, ref)):
+        elif any(not abs(a - b) <= tol for a, b in zip(doc, ref)):
             viol.append(('vector-values',
                          'simulated vector %r, expected (ascending level) %r'
                          % (doc[:3], ref[:3])))
@@ -195,7 +195,7 @@ def run_cli(case):
         else:
             for row, z, m, s in zip(doc[1:], levels, measured, ref):
                 if (len(row) != 3 or row[0] != z or row[1] != m
-                        or abs(row[2] - s) > tol):
+                        or not abs(row[2] - s) <= tol):
                     viol.append((
                         'table-row',
                         'row %r, expected level %r mm, measured %r, '
